@@ -163,7 +163,8 @@ class GetItem(Contract):
 
 
 def contracts():
-    return [Interfaces(), Boundaries(), Refined(), RefinedBoundaries(), Opposite(), GetItem()]
+    from contracts import c10_structured
+    return [Interfaces(), Boundaries(), Refined(), RefinedBoundaries(), Opposite(), GetItem()] + c10_structured.contracts()
 
 
 TRUSTED = ['pyvc symbolic executor; generator DimAxis.boundaries evaluated eagerly; Axis.map as (i + ielem) mod period (proved inverse of unmap in C11)']
